@@ -38,6 +38,92 @@ class InjectedFault(Exception):
     pass
 
 
+class _Quiet(Exception):
+    """An exception whose str() is empty and which is falsy."""
+
+    def __str__(self):
+        return ""
+
+    def __bool__(self):
+        return False
+
+
+class _Unprintable(Exception):
+    """An exception object that cannot be rendered: its __str__ raises."""
+
+    def __str__(self):
+        raise RuntimeError("no str")
+
+
+class _StrNotStr(Exception):
+    """... or returns something that is not a string (str(e) raises TypeError)."""
+
+    def __str__(self):
+        return None
+
+
+# WHAT a raising callback raises (script field "val", the model's opaque [sc_val]): the property says "work function
+# raising, validation ... raising", whatever the exception looks like.  Index 0 is the value used before this
+# alphabet existed.  Every entry derives from Exception; the last two cannot be rendered (str(e) raises): before the
+# repair cc45a69 such a value, raised by a validator, escaped from the handler of execute_operation before the abort.
+EXC_NAMES = ["message", "no-args", "bare-assert", "KeyError()", "StopIteration()", "falsy-empty-str", "empty-message",
+             "falsy-arg", "TimeoutError()", "KeyError('r1')", "two-args", "OSError(2,..)", "system's-ValidationError()",
+             "system's-ResourceError(msg)", "ExceptionGroup", "arg-None", "unprintable(__str__ raises)",
+             "unprintable(__str__ returns None)"]
+
+
+def exc_value(k, site, S):
+    """The k-th exception object; [site] = checkpoint / work / validate; S = operon_ai.coordination.system."""
+    k %= len(EXC_NAMES)
+    if k == 0:
+        return InjectedFault(site)
+    if k == 1:
+        return InjectedFault()
+    if k == 2:
+        return AssertionError()                          # what a bare `assert cond` in user code raises
+    if k == 3:
+        return KeyError()
+    if k == 4:
+        return StopIteration()
+    if k == 5:
+        return _Quiet()
+    if k == 6:
+        return ValueError("")
+    if k == 7:
+        return RuntimeError(0)
+    if k == 8:
+        return TimeoutError()
+    if k == 9:
+        return KeyError("r1")
+    if k == 10:
+        return LookupError("a", "b")
+    if k == 11:
+        return OSError(2, "gone")
+    if k == 12:
+        return S.ValidationError()                       # the system's own error classes, raised by USER code
+    if k == 13:
+        return S.ResourceError("Blocked on resource r1")
+    if k == 14:
+        return ExceptionGroup("", [ValueError()])
+    if k == 15:
+        return InjectedFault(None)
+    if k == 16:
+        return _Unprintable()
+    return _StrNotStr("text")
+
+
+# what a REJECTING validator returns (a falsy object) and what the work function returns, by the same index
+FALSY = [False, 0, None, "", [], 0.0, {}, b""]
+RESULTS = ["done", None, 0, "", False, [], ("a",), ValueError("returned, not raised")]
+
+# a call that RAISED instead of returning a result: class of what came out (observation [100, -2, code])
+def raised_code(e):
+    for i, cls in enumerate((LookupError, TypeError, AttributeError, ValueError, RuntimeError, AssertionError)):
+        if isinstance(e, cls):
+            return i + 1
+    return 0
+
+
 def wd_pairs(a, ret):
     """(operation, reason code) of every termination reported by watchdog.execute / run_maintenance."""
     if a[0] == "wd":
@@ -135,7 +221,7 @@ class World:
                 if self.log is not None:
                     self.log.append([0, k, 0])
                     self._mark()
-                raise InjectedFault("checkpoint")
+                raise exc_value(self.script.get("val", 0), "checkpoint", self.S)
             r = False if beh == "false" else bool(orig(ctx))
             if self.log is not None:
                 self.log.append([0, k, int(r)])
@@ -343,6 +429,8 @@ class World:
         ev_from = len(events)
         scripted_events = self.scripted_events = []   # terminations caused by the scripted callbacks themselves
 
+        val = sc.get("val", 0)     # which exception / falsy verdict / result objects the callbacks of this call use
+
         def work_fn():
             log.append([1])
             info["entry"] = self.view()
@@ -350,20 +438,21 @@ class World:
             if sc["raises"]:
                 log.append([5])
                 self._mark()
-                raise InjectedFault("work")
+                raise exc_value(val, "work", self.S)
             log.append([4])
             self._mark()
-            return "done"
+            return RESULTS[val % len(RESULTS)]
 
         def validate_fn(result):
             if sc["validate"] == "raise":
                 log.append([7])
                 self._mark()
-                raise InjectedFault("validate")
+                raise exc_value(val, "validate", self.S)
             ok = sc["validate"] == "true"
             log.append([6, int(ok)])
             self._mark()
-            return ok
+            return True if ok else FALSY[val % len(FALSY)]
+        raised = None
         try:
             # `resources` is Optional: an empty request list is passed as None by every other operation id
             rlist = None if (not reqs and o % 2 == 0) else [rname(r) for r in reqs]
@@ -372,11 +461,19 @@ class World:
                                          validate_fn=None if sc["validate"] == "none" else validate_fn, priority=p)
                 res = cres.coordination_result
                 success = bool(cres.success)     # what the caller of the cell is told
+                if res is None and not success:
+                    # the cell turned an exception that escaped execute_operation into a failed result
+                    raised = (0, f"IntegratedCell.execute reported the error {cres.error!r} without a coordination result")
             else:
-                res = self.sys.execute_operation(oname(o), "agent", work_fn, resources=rlist,
-                                                 validate_fn=None if sc["validate"] == "none" else validate_fn,
-                                                 priority=p)
-                success = bool(res.success)
+                try:
+                    res = self.sys.execute_operation(oname(o), "agent", work_fn, resources=rlist,
+                                                     validate_fn=None if sc["validate"] == "none" else validate_fn,
+                                                     priority=p)
+                    success = bool(res.success)
+                except Exception as e:
+                    # the call did not return: the history goes on, the state is judged as it is now
+                    res, success = None, False
+                    raised = (raised_code(e), f"execute_operation raised {type(e).__name__}: {e}")
             last_view, last_acq = self.mark
         finally:
             (self.script, self.cp_count, self.log, self.mark, parent_scripted, self.cur_info, self.encl) = saved
@@ -384,6 +481,8 @@ class World:
             parent_scripted.extend(scripted_events)
             self.scripted_events = parent_scripted
         info["success"] = success
+        info["raised"] = raised
+        info["val"] = val
         info["log"] = log
         info["acqs"] = self.acq_log[info["acq_from"]:]
         info["last_view"] = last_view
@@ -392,7 +491,9 @@ class World:
         # terminations of THIS operation during the call that its own work script did not ask for
         info["killed_by_system"] = [e.reason.value for e in events[ev_from:]
                                     if e.operation_id == oname(o) and id(e) not in scripted_events]
-        rows = [[100, int(success), -1 if res is None else PHASE[res.phase_reached.value]]] + [[105] + e for e in log]
+        head = [100, -2, raised[0]] if raised is not None else \
+            [100, int(success), -1 if res is None else PHASE[res.phase_reached.value]]
+        rows = [head] + [[105] + e for e in log]
         return rows, info
 
 
@@ -497,7 +598,7 @@ def coq_script(sc):
     work = clist([wact(x) for x in sc["work"] if x[0] != "look"])
     cpw = clist([clist([coq_cact(x) for x in acts if x[0] != "look"]) for acts in sc.get("cpw", [])])
     return (f"(mkScript {clist([CPO[c] for c in sc['cp']])} {cpw} {work} {cbool(sc['raises'])} "
-            f"{VFN[sc['validate']]})")
+            f"{VFN[sc['validate']]} {cz(sc.get('val', 0))})")
 
 
 def coq_op(a):
@@ -515,9 +616,22 @@ def coq_res(res):
     return clist([ctuple(cz(r), cbool(p)) for r, p in res])
 
 
-def plain_script(cp=(), work=(), raises=False, validate="none", cpw=()):
+def plain_script(cp=(), work=(), raises=False, validate="none", cpw=(), val=0):
     return {"cp": list(cp), "cpw": [[list(x) for x in acts] for acts in cpw],
-            "work": [list(x) for x in work], "raises": raises, "validate": validate}
+            "work": [list(x) for x in work], "raises": raises, "validate": validate, "val": val}
+
+
+def raising_sites(sc, log):
+    """Which callbacks of one execute_operation call raised, read off its callback log."""
+    out = []
+    for e in log:
+        if e[0] == 0 and e[2] == 0 and e[1] < len(sc["cp"]) and sc["cp"][e[1]] == "raise":
+            out.append(f"checkpoint-{e[1]}")
+        elif e == [5]:
+            out.append("work_fn")
+        elif e == [7]:
+            out.append("validate_fn")
+    return out
 
 
 NOW = {"strategy": "priority"}
@@ -583,6 +697,18 @@ class C14(Check):
             "refused one held resource one after the other (execute_operation with [r1] / [r2, r1], step API, mixed; "
             "priorities below/equal/above the holder's, rising/falling/equal), so ResourceLock.waiting_list grows to n "
             "entries across the calls; then the holder lets go and the next operation must get it. "
+            "Widened for the VALUES the callbacks use (script field val, the model's opaque sc_val): what a raising "
+            "checkpoint / work function / validator raises is one of 18 exception objects (with a message; without "
+            "arguments; a bare assert's AssertionError(); KeyError(); StopIteration(); a falsy one with an empty str(); "
+            "an empty message; a falsy / None first argument; TimeoutError(); KeyError('r1'); two arguments; OSError(2, ..); "
+            "the system's own ValidationError() / ResourceError(msg) raised by user code; an ExceptionGroup; two that cannot be "
+            "rendered: __str__ raises / returns None - the validator case leaked before the repair cc45a69), a rejecting "
+            "validator returns one of 8 falsy objects (False, 0, None, '', [], 0.0, {}, b''), work_fn returns one of 8 "
+            "results - exhaustive part: 17 values x each raising site (checkpoint 0..3, work, validate) / falsy verdict / "
+            "commit x request lists with a repeat and a preemption x nested-then-enclosing failures, each followed by an "
+            "operation that needs the same resources; 40 % of the random scripts draw a value. A call that raises instead "
+            "of returning is an observation ([100, -2, class]; the model has no such outcome) and the state it leaves "
+            "behind is judged like that of a call that returned. "
             "non-trivial = some fault, repeat, pre-held resource or scripted callback; distinct by content")
     LEVEL_TEXT = ("Coq theorems, for every well-formed controller state (an invariant proved to be preserved by every operation, so every "
                   "reachable state), every request list, priority, fault script, scripted work function and scripted checkpoint callbacks "
@@ -595,7 +721,10 @@ class C14(Check):
                   "ended while a checkpoint callback ran never runs its work); validation only after work "
                   "returned; success iff work and validation succeeded (and the checkpoints passed); the same no-leak statement for "
                   "complete/abort/manual kill/watchdog.execute/run_maintenance/shutdown (priority inheritance touches no lock, ends "
-                  "nobody, terminates) and, as an invariant, every owner is an active operation. The "
+                  "nobody, terminates) and, as an invariant, every owner is an active operation; the whole outcome of a call "
+                  "(state, success, phase, callback log) is the same whatever exception objects its raising callbacks raise, whatever "
+                  "falsy object a rejecting validator returns and whatever work_fn returns, at every nesting depth "
+                  "(c14_callback_values_irrelevant). The "
                   "model is tied to the code by running both on the same generated histories (model evaluated by vm_compute).")
     LEVEL_NOTE = ("Trusts: Coq kernel+VM; the correspondence harness; an operation id is never that of a live operation (driver-enforced; "
                   "execute_operation may re-use the id of an ended one, but a nested call never the id of an operation whose call encloses it); single-threaded calls; checkpoint callbacks restricted to the "
@@ -613,6 +742,10 @@ class C14(Check):
                "read-only accessors are executed and must be transparent (not in the model's alphabet)",
                "a nested execute_operation is observed by the enclosing one as ONE callback event (its encoded result and "
                "callback log); nested calls are made from work functions only (not from validate_fn / checkpoint callbacks)",
+               "callback values (exception objects raised, falsy verdicts, work results) are an index into the harness's tables "
+               "(EXC_NAMES / FALSY / RESULTS) and opaque to the model, which never reads the index; that the code's treatment of them "
+               "(str(e), truth test, passing the result on) does not depend on the value is what the correspondence on these cases "
+               "tests; through IntegratedCell an escaped exception is seen as a failed result without coordination_result",
                "a LockResult other than acquired/blocked/reentrant/preempted is logged as code 8 (the model has no such "
                "result: any occurrence is a disagreement) and counts as 'not obtained' in the monitor"]
     ASSUMPTIONS = ["an operation is never started under the id of a LIVE operation; start_operation (step API) ids are fresh; "
@@ -621,6 +754,9 @@ class C14(Check):
                    "checkpoint callbacks end operations / let time pass (kill, watchdog.execute, run_maintenance, shutdown, tick) and inspect locks; "
                    "they do not acquire or release resources themselves",
                    "resources are registered before the history starts and never re-registered",
+                   "exception objects raised by callbacks derive from Exception: KeyboardInterrupt / SystemExit / GeneratorExit and "
+                   "other BaseException subclasses, which `except Exception` is not meant to stop, pass through execute_operation "
+                   "without any clean-up and are outside the alphabet",
                    "calls are sequential (no concurrent threads inside the controller)"]
 
     # -- generation --------------------------------------------------------
@@ -678,6 +814,8 @@ class C14(Check):
     def _rand_script(self, rng, me, ops_pool, res_pool, depth=0):
         name, sc = rng.choice(FAULTS)
         sc = {**sc, "cp": list(sc["cp"]), "cpw": [], "work": []}
+        if rng.random() < 0.4:
+            sc["val"] = rng.randrange(len(EXC_NAMES))      # which exception / falsy verdict / result objects
         if rng.random() < 0.3:
             sc["cpw"] = [self._rand_cacts(rng, me, ops_pool) if rng.random() < 0.45 else [] for _ in range(rng.randint(1, 4))]
         if rng.random() < 0.25:
@@ -967,7 +1105,39 @@ class C14(Check):
         out += self._maintenance_cases()
         out += self._nested_cases()
         out += self._crowd_cases()
+        out += self._value_cases()
         return self._decorate(out)
+
+    def _value_cases(self):
+        """The alphabet of callback VALUES: every exception object of EXC_NAMES raised by each callback that can raise
+        (checkpoint k = 0..3, work function, validator), every falsy verdict, every work result - on request lists
+        with a repeat / a preempted resource, at top level and in a nested call whose encloser then fails the same
+        way, each followed by an operation that needs the same resources (a leak blocks it) and shutdown."""
+        res = [[1, False], [2, True], [3, True]]
+        quick = self.tier == "quick"
+        names = ("cp0-raise", "cp1-raise", "work-raise", "cp2-raise", "validate-false", "validate-raise", "cp3-raise", "validate-true")
+        out = []
+        for val in range(1, len(EXC_NAMES)):
+            for name, sc in FAULTS:
+                if name not in names:
+                    continue
+                lists = ([1], [1, 1], [2, 1], [3, 2, 1], [])
+                if quick:
+                    lists = ([2, 1],) if name.startswith("cp") or name == "validate-true" else ([1, 1], [2, 1])
+                for reqs in lists:
+                    sc1 = {**sc, "work": [["probe"]], "val": val}
+                    ops = [["start", 5, 0, False], ["acq", 5, 2],
+                           ["exec", 1, 3, list(reqs), sc1],
+                           ["exec", 2, 4, list(reqs), plain_script(work=[["probe"]])], ["shutdown"]]
+                    out.append({"res": res, "w": dict(NOW), "ops": ops})
+                if name in ("work-raise", "validate-raise", "validate-false", "cp1-raise"):
+                    # the same fault in a nested call (other value) and then in the enclosing one
+                    sub = {**sc, "work": [["probe"]], "val": (val * 7 + 3) % len(EXC_NAMES)}
+                    sc1 = {**sc, "work": [["probe"], ["exec", 2, 9, [2, 3], sub], ["probe"]], "val": val}
+                    ops = [["exec", 1, 3, [2, 1], sc1], ["exec", 4, 0, [1, 2, 3], plain_script(work=[["probe"]])],
+                           ["shutdown"]]
+                    out.append({"res": res, "w": dict(NOW), "ops": ops})
+        return out
 
     def _nested_cases(self):
         """execute_operation called from inside the work function of another execute_operation: the enclosing
@@ -1264,8 +1434,14 @@ class C14(Check):
         if info["success"] and info["killed_by_system"]:
             return Violation("C14/success-after-kill",
                              f"{where}: op{o} was terminated during the call ({info['killed_by_system']}, not by its own work script) but success=True is reported")
+        sites = raising_sites(sc, log)
+        how = ""
+        if sites:
+            how += f"; {', '.join(sites)} raised the exception value #{info.get('val', 0)} ({EXC_NAMES[info.get('val', 0) % len(EXC_NAMES)]})"
+        if info.get("raised"):
+            how += f"; the call did not return a CoordinationResult: {info['raised'][1]}"
         if owned_by(o) or o in after["active"]:
-            return Violation("C14/leak-after-execute", f"{where}: after execute_operation(op{o}, {info['reqs']}) it still owns {owned_by(o)} / active={o in after['active']}")
+            return Violation("C14/leak-after-execute", f"{where}: after execute_operation(op{o}, {info['reqs']}) it still owns {owned_by(o)} / active={o in after['active']}" + how)
         works = [j for j, e in enumerate(log) if e == [1]]
         if len(works) > 1:
             return Violation("C14/work-twice", f"{where}: work_fn invoked {len(works)} times")
@@ -1349,6 +1525,13 @@ class C14(Check):
                     ks.append("exec-repeated-request")
                 for (_o, _r, res) in info["acqs"]:
                     ks.append("acquire=" + {0: "acquired", 1: "blocked", 2: "reentrant", 3: "preempted"}.get(res, "other-result"))
+                for sub in [info] + self._all_nested(info):
+                    for site in raising_sites(sub["script"], sub["log"]):
+                        ks.append("raised:" + site.split("-")[0] + ":" + EXC_NAMES[sub["val"] % len(EXC_NAMES)])
+                    if [6, 0] in sub["log"]:
+                        ks.append("falsy-verdict:" + repr(FALSY[sub["val"] % len(FALSY)]))
+                    if sub["raised"]:
+                        ks.append("execute-did-not-return")
                 for e in info["log"]:
                     if e[0] == 0 and e[2] == 0:
                         ks.append(f"cp{e[1]}-failed")
@@ -1367,6 +1550,13 @@ class C14(Check):
             if a[0] == "pop":
                 ks.append("pop=" + ("waiter" if st["ret"][0] == 1 else "none"))
         return ks
+
+    @staticmethod
+    def _all_nested(info):
+        out = []
+        for sub in info["nested"]:
+            out += [sub] + C14._all_nested(sub)
+        return out
 
     @staticmethod
     def _nested_tags(sc, info):
@@ -1416,6 +1606,8 @@ class C14(Check):
             yield {**sc, "cpw": []}
         if sc["cp"]:
             yield {**sc, "cp": []}
+        if sc.get("val"):
+            yield {**sc, "val": 0}
         for j, x in enumerate(sc["work"]):
             yield {**sc, "work": sc["work"][:j] + sc["work"][j + 1:]}
         for j, x in enumerate(sc["work"]):
